@@ -402,8 +402,9 @@ func fixedWitnesses() []*Schedule {
 		{Name: "replay-and-reorder", Events: []Event{enc("I", 3), enc("I", 3), enc("I", 3), gen("R", 1), gen("R", 0), gen("R", 1), gen("R", 2), gen("R", 2)}},
 		{Name: "genuine-last-counter", ISend: U64(maxU64 - 1), RRecv: U64(maxU64 - 1), Events: []Event{enc("I", 1), enc("I", 1), gen("R", 0), gen("R", 1), gen("R", 0), gen("R", 1)}},
 		{Name: "witness-old-frame-after-2^63-gap", Events: []Event{enc("I", 2), gen("R", 0),
-			{Kind: "skip", Side: "I", SkipTo: u64p(1<<63 + 5)}, enc("I", 2), gen("R", 1), gen("R", 0), gen("R", 1),
-			{Kind: "skip", Side: "I", SkipTo: u64p(maxU64 - 1)}, enc("I", 2), gen("R", 2), gen("R", 0), gen("R", 1)}},
+			{Kind: "skip", Side: "I", SkipTo: u64p(1 << 62)}, enc("I", 2), gen("R", 1),
+			{Kind: "skip", Side: "I", SkipTo: u64p(1<<63 + 10)}, enc("I", 2), gen("R", 2), gen("R", 0), gen("R", 1),
+			{Kind: "skip", Side: "I", SkipTo: u64p(maxU64 - 1)}, enc("I", 2), gen("R", 3), gen("R", 0), gen("R", 1), gen("R", 2)}},
 		{Name: "short-frames", Events: []Event{enc("I", 0), {Kind: "deliver", Side: "R", Frame: &FrameSpec{Base: 0, FlipOff: -1, Trunc: 27}},
 			{Kind: "deliver", Side: "R", Frame: &FrameSpec{Base: 0, FlipOff: -1, Trunc: 11}},
 			{Kind: "deliver", Side: "R", Frame: &FrameSpec{Base: 0, FlipOff: -1, Trunc: 0}}, gen("R", 0)}},
@@ -448,7 +449,7 @@ func genSchedule(r *vh.Rand, n int) *Schedule {
 				cur = uint64(s.RSend)
 			}
 			cur += used[side] + skipped[side]
-			jump := r.PickU64(1, 1<<32, 1<<63-1, 1<<63, 1<<63+1)
+			jump := r.PickU64(1, 1<<32, 1<<62, 1<<62+1, 1<<63-1, 1<<63, 1<<63+1)
 			if cur+jump > cur && cur+jump < maxU64-64 {
 				skipped[side] += jump
 				room[side] -= jump
